@@ -13,7 +13,17 @@ inserted at position `w.length`, or it is a copy of the last element `AR:x` inse
 produces the same kind of string: a complete vector followed by one more `AR:…`). For these the
 documentation promises `ErrInvalidMetricOrder` (3) and the parser returns `ErrInvalidMetricValue` (4):
 `v2_errors_afterEnv`. Every other defect gets the documented value: `v2_errors_partial`
-(illegal value ⇒ 4; swapped neighbours / repeated / unknown ⇒ 3; truncation inside a started group ⇒ 2).
+(illegal value ⇒ 4; misplaced — swapped neighbours `swap i` and, in general, `move i j` — / repeated / unknown ⇒ 3;
+truncation inside a started group ⇒ 2).
+
+"Misplaced" holds without exception (`moved_metric`, and `afterEnv w (.move i j) = false` always): a moved vector has
+as many elements as the original, so the first element the parser refuses is never *after* a complete
+environmental group; in particular moving an earlier element behind a complete environmental group, or moving the
+last `AR` forward, gives ErrInvalidMetricOrder (examples below). F3 needs an *additional* element.
+
+`Defect.truncate` leaves out two cuts that are inside a group (`n = 9` of base+environmental, `n = 11` of
+base+temporal+environmental, because 9 and 11 are complete lengths of *other* shapes); `truncated_inside_group`
+proves ErrTooShortVector for every cut whose kept part is not itself a complete vector.
 -/
 namespace C18.V2
 open Proofs Proofs.Parse2
@@ -41,6 +51,27 @@ theorem v2_errors_partial (w : List Pair) (d : Defect) (s : Bytes) (e : Spec.Err
     (hw : ∃ s0, Witness s0 w) (h : d.apply .v20 w = some (s, e)) (hna : afterEnv w d = false) :
     parseK K s = .err ⟨e.1, e.2⟩ :=
   err_partial K hw d s e h hna
+
+/-- misplaced, general form, no side condition: element `i` taken out and put back at position `j ≠ i` -/
+theorem moved_metric (w : List Pair) (hw : ∃ s0, Witness s0 w) {i j : Nat} {p : Pair}
+    (hp : w[i]? = some p) (hji : j ≠ i) (hj : j < w.length) :
+    parseK K (Spec.joinSlash ((Spec.insertAt (w.eraseIdx i) j p).map Spec.render)) = .err Model.eOrder := by
+  have happ : (Defect.move i j).apply .v20 w =
+      some (Spec.joinSlash ((Spec.insertAt (w.eraseIdx i) j p).map Spec.render), (3, [])) := by
+    simp only [Defect.apply, hp]
+    rw [if_neg (by omega)]
+    rfl
+  exact err_move K hw i j _ _ happ
+
+/-- a `move` is never in the F3 situation -/
+theorem afterEnv_move (w : List Pair) (i j : Nat) : afterEnv w (.move i j) = false := rfl
+
+/-- cut short inside a started group, exact form: every proper non-empty prefix whose abbreviations are not
+    themselves a complete vector (`Defect.truncate` is the special case `n ∉ {6, 9, 11, 14}`) -/
+theorem truncated_inside_group (w : List Pair) (hw : ∃ s0, Witness s0 w) (n : Nat) (h1 : 1 ≤ n) (h2 : n < w.length)
+    (h3 : (w.take n).map (·.1) ∉ Spec.V2.shapes) :
+    parseK K (Spec.joinSlash ((w.take n).map Spec.render)) = .err Model.eTooShort :=
+  err_truncate_exact K hw n h1 h2 h3
 
 /-- the finding, exactly: under `afterEnv` code 3 is promised and code 4 is returned -/
 theorem v2_errors_afterEnv (w : List Pair) (d : Defect) (s : Bytes) (e : Spec.ErrVal)
@@ -96,5 +127,19 @@ example : good (.repeated 13 5 (Spec.b "H")) 3 = true := by decide
 example : good (.unknown 6 (Spec.b "XY") (Spec.b "N")) 3 = true := by decide
 example : good (.swap 5) 3 = true := by decide
 example : good (.truncate 7) 2 = true := by decide
+example : good (.move 0 13) 3 = true := by decide     -- `AV` moved behind the complete environmental group
+example : good (.move 13 9) 3 = true := by decide     -- the last `AR` moved to the front of its group
+example : good (.move 6 13) 3 = true := by decide     -- temporal `E` moved to the very end
+example : good (.move 13 0) 3 = true := by decide
+/-- all 14·13 moves of the full vector: applicable, promised 3, returned 3 by the model with the generated `Set` -/
+example : ∀ i < 14, ∀ j < 14, j ≠ i → good (.move i j) 3 = true := by decide
+example : (Defect.move 0 13).apply .v20 wFull =
+    some (Spec.b "AC:H/Au:M/C:N/I:N/A:N/E:F/RL:OF/RC:C/CDP:ND/TD:ND/CR:ND/IR:ND/AR:ND/AV:L", (3, [])) := by decide
+
+/-- base+environmental, cut after 9 elements (inside the environmental group): not covered by `Defect.truncate`,
+    covered by `truncated_inside_group`; the model says ErrTooShortVector -/
+example : (Defect.truncate 9).apply .v20 (wFull.take 6 ++ wFull.drop 9) = none := by decide
+example : Model.parse20 (Spec.b "AV:L/AC:H/Au:M/C:N/I:N/A:N/CDP:ND/TD:ND/CR:ND") = .err Model.eTooShort := by decide
+example : ((wFull.take 6 ++ wFull.drop 9).take 9).map (·.1) ∉ Spec.V2.shapes := by decide
 
 end C18.V2
